@@ -128,7 +128,10 @@ def handle (j : Json) : Except String Json := do
                   ("ncands", toJson (cands inp).length)])
   | "spec" =>
     let inp ← inputOf (← j.getObjVal? "input")
-    pure (okJson [("out", outputToJson (specOutput inp (specMatches inp)))])
+    -- `out`: the property (every link whose molmeta fits is a candidate); `out_prefilter`: the same
+    -- specification restricted to the links the code's residue-name pre-filter lets through
+    pure (okJson [("out", outputToJson (specOutput inp (specMatches inp))),
+                  ("out_prefilter", outputToJson (specOutput { inp with links := inp.links.filter (prefilter inp) } (specMatches inp)))])
   | "dangling" =>
     let names ← (← arrOf (← j.getObjVal? "names")).mapM strOf
     let ixns ← (← arrOf (← j.getObjVal? "ixns")).mapM bixnOf
